@@ -473,6 +473,11 @@ fn main_random(budget: u64) {
         (b"\nMODULE Linux x86_64 000 a\nPUBLIC 50 0 p\n", false),
         (b"MODULE Linux x86_64 000 a\nSTACK CFI INIT 10 10 .cfa: $rsp 8 +\n\nSTACK CFI 12 .cfa: $rsp 16 +\nPUBLIC 50 0 p\n\n", false),
         (b"MODULE Linux x86_64 000 a\nFUNC 10 10 0 f\n10 10 99999999999999999999 0\n", false),
+        // fields that are "everything up to the next space" must not swallow a line end
+        (b"MODULE Linux\nx86 arch ffff0000 bar\nFILE 1 a\n", false),
+        (b"MODULE Linux x86\n64 ffff0000 bar\nPUBLIC 10 0 p\n", false),
+        (b"MODULE Linux x86_64 000 a\nFILE 1\n2 b.c\nPUBLIC 10 0\np\nFUNC 10\n10 0 f\n", false),
+        (b"MODULE Linux x86_64 000 a\nSTACK WIN 4 10 10 0 0 0 0 0 0 1\n$eip 4 + ^ =\nSTACK CFI INIT 10 10\n.cfa: $rsp 8 +\n", false),
     ];
     for (data, expect_ok) in &small {
         for s in 0..=data.len() {
